@@ -124,6 +124,7 @@ type Session struct {
 	// Holds is the sched-hold fault plan (C07): goroutines descheduled after a hook point.
 	Holds []HoldSpec `json:"holds,omitempty"`
 	State string     `json:"state,omitempty"` // C07: connection state at the time of Close
+	Plan  *LoginPlan `json:"plan,omitempty"`  // C10: the reference for the login dialogue
 }
 
 // HoldSpec deschedules goroutines of role Base for DurUS after they pass Point, with
